@@ -49,6 +49,11 @@ type Agent struct {
 	finished  atomic.Bool
 
 	lock sync.RWMutex
+
+	// statusLock serializes the status writes of a run; finalWritten is set
+	// once the final status has been written.
+	statusLock   sync.Mutex
+	finalWritten bool
 }
 
 // Options is the configuration for the Agent.
@@ -163,9 +168,9 @@ func (a *Agent) Run(ctx context.Context) error {
 	defer close(done)
 	go func() {
 		for node := range done {
-			status := a.Status()
-			if err := a.historyStore.Write(status); err != nil {
-				a.logger.Error("Failed to write status", "error", err)
+			status := a.writeStatus(false)
+			if status == nil {
+				continue
 			}
 			if err := a.reporter.reportStep(a.dag, status, node); err != nil {
 				a.logger.Error("Failed to report step", "error", err)
@@ -180,21 +185,19 @@ func (a *Agent) Run(ctx context.Context) error {
 		if a.finished.Load() {
 			return
 		}
-		if err := a.historyStore.Write(a.Status()); err != nil {
-			a.logger.Error("Status write failed", "error", err)
-		}
+		a.writeStatus(false)
 	}()
 
 	// Start the DAG execution.
 	dagCtx := dag.NewContext(ctx, a.dag, a.dataStore.DAGStore(), a.requestID, a.logFile)
 	lastErr := a.scheduler.Schedule(dagCtx, a.graph, done)
 
-	// Update the finished status to the history database.
-	finishedStatus := a.Status()
+	// Update the finished status to the history database. It is the last
+	// status of the run: a write that is still on its way in another
+	// goroutine (the per-step writer, the delayed "running" write) must not
+	// land after it.
+	finishedStatus := a.writeStatus(true)
 	a.logger.Info("Workflow execution finished", "status", finishedStatus.Status)
-	if err := a.historyStore.Write(a.Status()); err != nil {
-		a.logger.Error("Status write failed", "error", err)
-	}
 
 	// Send the execution report if necessary.
 	a.reporter.report(finishedStatus, lastErr)
@@ -207,6 +210,27 @@ func (a *Agent) Run(ctx context.Context) error {
 
 	// Return the last error on the DAG execution.
 	return lastErr
+}
+
+// writeStatus records the current status of the run, unless the final status
+// has been recorded already. Collecting and writing happen under one lock, so
+// the statuses reach the history in the order in which they were collected
+// and nothing is written after the final one. It returns the status written,
+// or nil if none was.
+func (a *Agent) writeStatus(final bool) *model.Status {
+	a.statusLock.Lock()
+	defer a.statusLock.Unlock()
+	if a.finalWritten {
+		return nil
+	}
+	status := a.Status()
+	if err := a.historyStore.Write(status); err != nil {
+		a.logger.Error("Failed to write status", "error", err)
+	}
+	if final {
+		a.finalWritten = true
+	}
+	return status
 }
 
 // Status collects the current running status of the DAG and returns it.
